@@ -24,7 +24,7 @@ from ..gvn import Frame, Obj, PW, Vec, cases_of, veq, Unsupported, vkey
 from ..intervals import single_atom
 from . import rdp_model as rm
 from .c01 import _ascending
-from .common import RuleCtx, _short, split_at_loop, sign_set_name
+from .common import section, RuleCtx, _short, split_at_loop, sign_set_name
 
 C = Rat.const
 ORDERS = ["triangle", "area", "segment"]
@@ -68,8 +68,8 @@ def run(ctx):
         res.rule(k_, v_)
     c15._global_cost_loop(rc)
     c15._compute_cost(rc)
-    _mp_grdp(rc)
-    _min_point(rc)
+    section(rc, _mp_grdp)
+    section(rc, _min_point)
     res.assumptions += ["t > 0; thresholds finite", "S_k denotes the fixed-size refinement sequence of C05 (the alignment G1 makes the two loops generate the same sequence)"]
     res.not_decided += ["equality with an independently computed S_k on concrete curves (behavioural)"]
     from .common import hidden_state as _hidden_state
